@@ -295,8 +295,13 @@ Definition set_this_value (k : list Z) (v : value) (st : rstate) : rstate :=
 (* Go's == on two interface values (used by the default branches of == and ===) *)
 Definition iface_eq (a b : value) : outcome bool :=
   match a, b with
-  | VArr _, VArr _ | VMap _, VMap _ | VFunc _, VFunc _ | VBuiltin _, VBuiltin _
-  | VFunc _, VBuiltin _ | VBuiltin _, VFunc _ => Panic       (* uncomparable dynamic types *)
+  | VArr _, VArr _ | VMap _, VMap _ => Panic                 (* same uncomparable dynamic type *)
+  (* two function values: a run-time panic when their Go types are identical, false otherwise;
+     the model knows the types are identical only when it is the same function *)
+  | VFunc a, VFunc b => if a =? b then Panic else Unk
+  | VBuiltin a, VBuiltin b => if bytes_eqb a b then Panic else Unk
+  | VFunc _, VBuiltin _ | VBuiltin _, VFunc _ => Unk
+  | VTime _, VTime _ | VOpaque _, VOpaque _ => Unk            (* struct equality: not modelled *)
   | VNull, VNull => Ok true
   | VBool x, VBool y => Ok (Bool.eqb x y)
   | VStr x, VStr y => Ok (bytes_eqb x y)
